@@ -187,7 +187,7 @@ structure SrcWF (s : Sorted) : Prop where
   ne   : ∀ k, k ∈ names s.all → sget s.src k ≠ []
 
 theorem SrcWF.sourced {s : Sorted} (h : SrcWF s) (ps : List Param) (hps : ∀ p ∈ ps, p ∈ s.all) :
-    Sourced s.src ps := fun p hp => h.ne p.name (mem_names_of_mem (hps p hp))
+    Sourced s.src ps := fun p hp => h.ne p.name (mem_names_of_mem_C08 (hps p hp))
 
 theorem mem_all_pos {s : Sorted} {p : Param} (h : p ∈ s.pos) : p ∈ s.all := by simp [Sorted.all, h]
 theorem mem_all_pok {s : Sorted} {p : Param} (h : p ∈ s.pok) : p ∈ s.all := by simp [Sorted.all, h]
@@ -291,7 +291,7 @@ theorem mergeStep_src_gen (l r s : Sorted) (hl : Sourced l.src l.all)
     · exact .inr h
 
 theorem SrcWF.sourcedAll {s : Sorted} (h : SrcWF s) : Sourced s.src s.all :=
-  fun p hp => h.ne p.name (mem_names_of_mem hp)
+  fun p hp => h.ne p.name (mem_names_of_mem_C08 hp)
 
 theorem mergeStep_srcWF (l r s : Sorted) (hl : SrcWF l) (hr : SrcWF r) (h : mergeStep l r = .ok s) :
     SrcWF s ∧ ∀ k f, f ∈ sget s.src k → f ∈ sget l.src k ∨ f ∈ sget r.src k := by
